@@ -219,10 +219,10 @@ def check_c05(ctx):
             if len(rep.samples) < 2 and '~' in o['name'] and '/' in o['name']:
                 rep.samples.append({'member_name': o['name'], 'ref': o['refs'], 'mode': o['mode'], 'got': o['got']})
     # (b) graph layer: every node of every enumerated graph, nested pointers, other documents, dangling
-    layouts = fe.ALL_LAYOUTS if ctx.tier == 'thorough' else [fe.ALL_LAYOUTS[(ctx.seed + i) % len(fe.ALL_LAYOUTS)] for i in (0, 3, 5)] + ["remoteq"]
+    layouts = fe.ALL_LAYOUTS if ctx.tier == 'thorough' else sorted(set([fe.ALL_LAYOUTS[(ctx.seed + i) % len(fe.ALL_LAYOUTS)] for i in (0, 4)] + ["remoteq"]))
     gensets = [fe.G_N3_ALL_WF] + ([fe.G_N4_S_WF, fe.G_N3_D3_WF] if ctx.tier == 'thorough' else [])
     # the root on a remote site, other documents on that site, on another one and in local files
-    runs = [(gs, layouts, '') for gs in gensets] + [(fe.G_N3_ALL_WF, ['localfile', 'remote'] + (['sibling', 'subdir', 'parent'] if ctx.tier == 'thorough' else []), 'http')]
+    runs = [(gs, layouts, '') for gs in gensets] + [(fe.G_N3_ALL_WF, ['localfile'] + (['remote', 'sibling', 'subdir', 'parent'] if ctx.tier == 'thorough' else [['remote', 'sibling', 'subdir'][ctx.seed % 3]]), 'http')]
     for gi, (gs, lays, site) in enumerate(runs):
         lay = lays if gs[1] == 2 else [a + '+subdir' for a in lays]
         obsfiles = vlib.run_worker(ctx, 'resolve', fe.gen(ctx, *gs),
